@@ -127,7 +127,7 @@ def joinLists (p : PCtx) (mk : Span → Str → Node) (site : String) : M SVal :
     return .nodes (l ++ [mk (p.lexspan 2) (← p.strAt 2)] ++ r)
 
 /-- `p.callable(pslice)`: returns `p[0]` and whether YaccAccept was raised -/
-def action (np : NestedParse) (fname : String) (args : List SVal) : M (SVal × Bool) := do
+def actionCore (np : NestedParse) (fname : String) (args : List SVal) : M (SVal × Bool) := do
   let p : PCtx := { np := np, args := args }
   let ret (v : SVal) : M (SVal × Bool) := pure (v, false)
   match fname with
@@ -343,6 +343,17 @@ def action (np : NestedParse) (fname : String) (args : List SVal) : M (SVal × B
   | "p_timespec" => ret (← handleNotImplemented p "time command")
   | "p_empty" => ret .none
   | _ => M.foreign "NotModelled" ("action " ++ fname)
+
+/-- the actions that may raise YaccAccept (`p.accept()`) -/
+def acceptingActions : List String := ["p_inputunit", "p_simple_list"]
+
+/-- `p.callable(pslice)`.  Only `p_inputunit` and `p_simple_list` call `p.accept()`; the model
+    asserts it (the branch is dead: `actionCore` sets the flag nowhere else), which makes
+    "acceptance happens only at `inputunit` / `simple_list`" a fact visible to the LR theorems. -/
+def action (np : NestedParse) (fname : String) (args : List SVal) : M (SVal × Bool) := do
+  let r ← actionCore np fname args
+  if r.2 && !acceptingActions.contains fname then M.foreign "NotModelled" "accept outside p_inputunit/p_simple_list"
+  else pure r
 
 /-- `p_error(p)` -/
 def pError (t : Token) : M Unit := do
